@@ -29,7 +29,7 @@ func init() {
 		},
 		Gates: func(tier string) map[string]int64 {
 			return map[string]int64{"histories": 300, "register_ok": 1500, "register_conflict:path": 100, "register_conflict:package-vs-declaration": 50, "register_conflict:declaration-name": 200, "lookups_found": 50000, "lookups_notfound": 20000,
-				"types_register_ok": 2000, "types_conflict:name": 100, "types_conflict:extension-number": 20, "types_lookups": 20000, "conflict_files": 500}
+				"types_register_ok": 2000, "types_conflict:name": 100, "types_conflict:extension-number": 20, "types_conflict_distinct_name_same_number": 20, "types_lookups": 20000, "conflict_files": 500}
 		},
 		Run: runC33,
 	})
@@ -223,6 +223,34 @@ func c33Universe(c *core.Ctx, r *core.Rand, prefix string) (fds []protoreflect.F
 		mk(prefix+"/clash_decl_vs_pkg.proto", string(pk.Parent()), func(p *descriptorpb.FileDescriptorProto) {
 			p.MessageType = []*descriptorpb.DescriptorProto{{Name: proto.String(string(pk.Name()))}}
 		})
+	}
+	// an extension with a fresh name but the extendee and number of an existing one
+	{
+		all := &protoregistry.Files{}
+		for _, fd := range fds {
+			all.RegisterFile(fd) // conflicting ones are simply left out of the resolver
+		}
+		var exts []protoreflect.ExtensionDescriptor
+		for _, fd := range fds {
+			for _, d := range allDecls(fd) {
+				if x, ok := d.(protoreflect.FieldDescriptor); ok && x.IsExtension() && !x.ContainingMessage().IsPlaceholder() {
+					if _, err := all.FindDescriptorByName(x.ContainingMessage().FullName()); err == nil {
+						exts = append(exts, x)
+					}
+				}
+			}
+		}
+		sort.Slice(exts, func(i, j int) bool { return exts[i].FullName() < exts[j].FullName() })
+		for k := 0; k < 2 && len(exts) > 0; k++ {
+			x := exts[r.Intn(len(exts))]
+			p := &descriptorpb.FileDescriptorProto{Name: proto.String(fmt.Sprintf("%s/clash_ext_number_%d.proto", prefix, k)), Package: proto.String(prefix + ".extclash"), Dependency: []string{x.ContainingMessage().ParentFile().Path()},
+				Extension: []*descriptorpb.FieldDescriptorProto{{Name: proto.String(fmt.Sprintf("same_number_ext_%d", k)), Number: proto.Int32(int32(x.Number())), Label: descriptorpb.FieldDescriptorProto_LABEL_OPTIONAL.Enum(), Type: descriptorpb.FieldDescriptorProto_TYPE_INT32.Enum(), Extendee: proto.String("." + string(x.ContainingMessage().FullName()))}}}
+			if fd := buildOne(p, all); fd != nil {
+				fds = append(fds, fd)
+				c.Count("conflict_files")
+				c.Count("same_number_extension_files")
+			}
+		}
 	}
 	// same path, other content
 	mk(base.Path(), string(base.Package())+".otherpkg", func(p *descriptorpb.FileDescriptorProto) {
@@ -500,8 +528,13 @@ func c33Types(c *core.Ctx, r *core.Rand, prefix string, fds []protoreflect.FileD
 		if cd.kind == "extension" {
 			xd := cd.d.(protoreflect.FieldDescriptor)
 			key = fmt.Sprintf("%s/%d", xd.ContainingMessage().FullName(), xd.Number())
-			if _, dup := extByNum[key]; dup {
+			if prev, dup := extByNum[key]; dup {
 				wantClass = "extension-number"
+				if prev.TypeDescriptor().FullName() != name {
+					if _, nameTaken := byName[name]; !nameTaken {
+						c.Count("types_conflict_distinct_name_same_number")
+					}
+				}
 			}
 		}
 		if _, dup := byName[name]; dup && wantClass == "" {
